@@ -40,6 +40,18 @@ OWriteAt(p, off, k, e) ==
 OSeek(off, w) == O!Seek(off, w) /\ icalls' = <<>> /\ UNCHANGED <<ibase, ilimit, icur, iret>>
 OSize         == O!Size /\ icalls' = <<>> /\ UNCHANGED <<ibase, ilimit, icur, iret>>
 
+\* The same composed steps for a buffer given by its length only (see SectionWriter!WriteL)
+AnsweredL(k1, e1, k, e) ==
+    IF ocalls' = <<>>
+    THEN /\ k1 = 0 /\ e1 = FALSE
+         /\ icalls' = <<>> /\ UNCHANGED <<ibase, ilimit, icur, iret>>
+    ELSE /\ I!WriteAtL(ocalls'[1].n, ocalls'[1].off, k, e)
+         /\ k1 = iret'.n /\ e1 = (iret'.err # "nil")
+OWriteL(n, k, e) ==
+    \E k1 \in 0..n, e1 \in BOOLEAN : O!WriteL(n, k1, e1) /\ AnsweredL(k1, e1, k, e)
+OWriteAtL(n, off, k, e) ==
+    \E k1 \in 0..n, e1 \in BOOLEAN : O!WriteAtL(n, off, k1, e1) /\ AnsweredL(k1, e1, k, e)
+
 \* the inner section used directly (the outer one does not notice)
 OIdle == ocalls' = <<>> /\ UNCHANGED <<obase, olimit, ocur, oret>>
 IWrite(p, k, e)        == I!Write(p, k, e) /\ OIdle
